@@ -119,6 +119,172 @@ theorem C02_main_full_instance_repaired : ∃ o out,
   cases h2
   exact ⟨o, out, hb, h1, h3⟩
 
+/-! ## a path compared with a path: `a[b = c]`, `a[b < c]` -/
+
+/-- `<r><a><b>10</b><c>9</c></a><a><b>7</b><c>7</c></a><a><b>8</b><c>10</c></a></r>`: 17 nodes.
+The first `a` has `b < c` in lexical order only ("10" < "9"), the third in numeric order only
+(8 < 10, but "8" > "10") -/
+def d1 : Doc :=
+  [⟨0, .root, "", "", "", "", []⟩,
+   ⟨1, .elem, "", "r", "", "", []⟩,
+   ⟨2, .elem, "", "a", "", "", []⟩,
+   ⟨3, .elem, "", "b", "", "", []⟩,
+   ⟨4, .text, "", "", "", "10", []⟩,
+   ⟨3, .elem, "", "c", "", "", []⟩,
+   ⟨4, .text, "", "", "", "9", []⟩,
+   ⟨2, .elem, "", "a", "", "", []⟩,
+   ⟨3, .elem, "", "b", "", "", []⟩,
+   ⟨4, .text, "", "", "", "7", []⟩,
+   ⟨3, .elem, "", "c", "", "", []⟩,
+   ⟨4, .text, "", "", "", "7", []⟩,
+   ⟨2, .elem, "", "a", "", "", []⟩,
+   ⟨3, .elem, "", "b", "", "", []⟩,
+   ⟨4, .text, "", "", "", "8", []⟩,
+   ⟨3, .elem, "", "c", "", "", []⟩,
+   ⟨4, .text, "", "", "", "10", []⟩]
+
+theorem wf_d1 : WF d1 := wf_of_wfb (by decide)
+theorem hashInj_d1 : PathSem.HashInj d1 {} := hashInj_of_hashInjB (by decide +kernel)
+
+def pE0 : Ast := .axis (chE "a") .none
+def bE : Ast := .oper "=" (.axis (chE "b") .none) (.axis (chE "c") .none)
+/-- `a[b = c]` -/
+def pE : Ast := .filter pE0 bE
+
+theorem pE_parsed : ParsesTo "a[b = c]" pE := ApiSem.parsesTo_eq (by decide +kernel)
+
+theorem pE0_frag : Frag2 true pE0 := .axis _ _ .none (by decide)
+theorem pE_frag : Frag2 true pE :=
+  .filter _ _ pE0_frag (.cmpPath _ _ _ (by decide) (.axis _ _ .none (by decide)) (.axis _ _ .none (by decide)))
+
+theorem pE0_built : ∃ o, build (fun _ => true) 100 true false pE0 {} {} = .ok o :=
+  exists_ok (by decide +kernel)
+theorem pE_built : ∃ o, build (fun _ => true) 100 true false pE {} {} = .ok o :=
+  exists_ok (by decide +kernel)
+
+theorem pE0_spec : Spec.eval (F := Int) d1 pE0 ⟨.node 1, 1, 1⟩ =
+    .ok (.val (.nodes [.node 2, .node 7, .node 12]) (some [[.node 2, .node 7, .node 12]])) := by
+  decide +kernel
+theorem pE_spec : Spec.eval (F := Int) d1 pE ⟨.node 1, 1, 1⟩ =
+    .ok (.val (.nodes [.node 7]) (some [[.node 7]])) := by decide +kernel
+
+/-- **`C02_path_vs_path`** at `a[b = c]` from the context node `r` of `d1`, every hypothesis
+discharged: the candidates are the three `a`; the first (`b` = "10", `c` = "9") and the third ("8",
+"10") are dropped, the second (`b` = `c` = "7") is kept — exactly the candidates at which
+`boolean(b = c)` is true -/
+theorem C02_path_vs_path_instance : ∃ (o0 o : BOut), ∃ out0 out,
+    sel (F := Int) d1 {} o0.q (.node 1) = .ok out0 ∧ sel (F := Int) d1 {} o.q (.node 1) = .ok out ∧
+    (∀ x, x ∈ refs out0 ↔ x ∈ [Ref.node 2, .node 7, .node 12]) ∧
+    (∀ x, x ∈ refs out ↔ x ∈ [Ref.node 7]) ∧
+    (∀ x, x ∈ refs out ↔ x ∈ refs out0 ∧ holds (F := Int) d1 bE x = true) ∧
+    holds (F := Int) d1 bE (.node 2) = false ∧ holds (F := Int) d1 bE (.node 7) = true := by
+  obtain ⟨o0, hb0⟩ := pE0_built
+  obtain ⟨o, hb⟩ := pE_built
+  obtain ⟨out0, out, ns, g, h1, h2, h3, h4, h5, _⟩ :=
+    Theorems.C02.C02_path_vs_path (F := Int) wf_d1 {} rfl hashInj_d1 (fun _ => true) 100 "=" (by decide)
+      pE0 _ _ pE0_frag (.axis _ _ .none (by decide)) (.axis _ _ .none (by decide)) {} {} o0 o hb0 hb
+      (.node 1) (by decide)
+  obtain ⟨out0', ns0, g0, h1', h2', h3'⟩ := Theorems.C02.C02_main_full (F := Int) wf_d1 {} rfl
+    hashInj_d1 (fun _ => true) 100 pE0 pE0_frag {} o0 hb0 (.node 1) (by decide)
+  rw [h1] at h1'; cases h1'
+  rw [pE0_spec] at h2'; cases h2'
+  have h3e : Spec.eval (F := Int) d1 (.filter pE0 (.oper "=" (.axis (chE "b") .none)
+      (.axis (chE "c") .none))) ⟨.node 1, 1, 1⟩ = .ok (.val (.nodes [.node 7]) (some [[.node 7]])) :=
+    pE_spec
+  rw [h3e] at h3; cases h3
+  exact ⟨o0, o, out0, out, h1, h2, h3', h4, h5, by decide +kernel, by decide +kernel⟩
+
+/-! ### `a[b < c]` — a relational operator between two paths
+
+XPath 1.0 §3.4 converts both string-values to numbers for `<`, `<=`, `>`, `>=`.  (The engine used to
+compare them byte-wise: on `d1` it kept the first `a`, "10" < "9", and dropped the third, "8" > "10";
+`cmpStringStringF` was repaired and the model follows.)  On `d1`, from `r`: `a[b < c]` is the third
+`a` (8 < 10) — and only it (10 < 9 and 7 < 7 are false). -/
+
+def bLt : Ast := .oper "<" (.axis (chE "b") .none) (.axis (chE "c") .none)
+/-- `a[b < c]` -/
+def pLt : Ast := .filter pE0 bLt
+
+theorem pLt_parsed : ParsesTo "a[b < c]" pLt := ApiSem.parsesTo_eq (by decide +kernel)
+
+theorem pLt_frag : Frag2 true pLt :=
+  .filter _ _ pE0_frag (.cmpPath _ _ _ (by decide) (.axis _ _ .none (by decide)) (.axis _ _ .none (by decide)))
+
+theorem pLt_built : ∃ o, build (fun _ => true) 100 true false pLt {} {} = .ok o :=
+  exists_ok (by decide +kernel)
+
+theorem pLt_spec : Spec.eval (F := Int) d1 pLt ⟨.node 1, 1, 1⟩ =
+    .ok (.val (.nodes [.node 12]) (some [[.node 12]])) := by decide +kernel
+
+/-- **`C02_path_vs_path`** at `a[b < c]` from `r` of `d1`, every hypothesis discharged: of the three
+candidates only the third (`b` = 8, `c` = 10) is kept — numeric order, not lexical order -/
+theorem C02_path_lt_path_instance : ∃ (o0 o : BOut), ∃ out0 out,
+    sel (F := Int) d1 {} o0.q (.node 1) = .ok out0 ∧ sel (F := Int) d1 {} o.q (.node 1) = .ok out ∧
+    (∀ x, x ∈ refs out0 ↔ x ∈ [Ref.node 2, .node 7, .node 12]) ∧
+    (∀ x, x ∈ refs out ↔ x ∈ [Ref.node 12]) ∧
+    (∀ x, x ∈ refs out ↔ x ∈ refs out0 ∧ holds (F := Int) d1 bLt x = true) ∧
+    holds (F := Int) d1 bLt (.node 2) = false ∧ holds (F := Int) d1 bLt (.node 7) = false ∧
+    holds (F := Int) d1 bLt (.node 12) = true := by
+  obtain ⟨o0, hb0⟩ := pE0_built
+  obtain ⟨o, hb⟩ := pLt_built
+  obtain ⟨out0, out, ns, g, h1, h2, h3, h4, h5, _⟩ :=
+    Theorems.C02.C02_path_vs_path (F := Int) wf_d1 {} rfl hashInj_d1 (fun _ => true) 100 "<" (by decide)
+      pE0 _ _ pE0_frag (.axis _ _ .none (by decide)) (.axis _ _ .none (by decide)) {} {} o0 o hb0 hb
+      (.node 1) (by decide)
+  obtain ⟨out0', ns0, g0, h1', h2', h3'⟩ := Theorems.C02.C02_main_full (F := Int) wf_d1 {} rfl
+    hashInj_d1 (fun _ => true) 100 pE0 pE0_frag {} o0 hb0 (.node 1) (by decide)
+  rw [h1] at h1'; cases h1'
+  rw [pE0_spec] at h2'; cases h2'
+  have h3e : Spec.eval (F := Int) d1 (.filter pE0 (.oper "<" (.axis (chE "b") .none)
+      (.axis (chE "c") .none))) ⟨.node 1, 1, 1⟩ = .ok (.val (.nodes [.node 12]) (some [[.node 12]])) :=
+    pLt_spec
+  rw [h3e] at h3; cases h3
+  exact ⟨o0, o, out0, out, h1, h2, h3', h4, h5, by decide +kernel, by decide +kernel, by decide +kernel⟩
+
+/-- the plan the builder makes of `a[b < c]`, run directly: the third `a` -/
+theorem pLt_plan_selects : ∃ out,
+    sel (F := Int) d1 {} (.filter (.child (chE "a") .context)
+      (.logical "<" (.child (chE "b") .context) (.child (chE "c") .context))) (.node 1) = .ok out ∧
+    refs out = [.node 12] := by
+  refine ⟨[⟨.node 12, 1, 0⟩], ?_, by decide⟩
+  sel_decide
+
+/-! ### a path compared relationally with a string literal: `a[b < '9']`, `a['9' > b]` -/
+
+def bLtS : Ast := .oper "<" (.axis (chE "b") .none) (.str "9")
+def bGtS : Ast := .oper ">" (.str "9") (.axis (chE "b") .none)
+
+theorem pLtS_parsed : ParsesTo "a[b < '9']" (.filter pE0 bLtS) := ApiSem.parsesTo_eq (by decide +kernel)
+theorem pGtS_parsed : ParsesTo "a['9' > b]" (.filter pE0 bGtS) := ApiSem.parsesTo_eq (by decide +kernel)
+
+theorem bLtS_frag : Frag2 false bLtS := .cmpStrR _ _ _ (by decide) (.axis _ _ .none (by decide))
+theorem bGtS_frag : Frag2 false bGtS := .cmpStrL _ _ _ (by decide) (.axis _ _ .none (by decide))
+
+/-- **`C02_main_full`** at `a[b < '9']` and `a['9' > b]`: the `a` with `b` = 7 and `b` = 8 (numbers;
+before the repair of `cmpNodeSetString` the engine tested `'9' < b`, and byte-wise) -/
+theorem C02_path_lt_string_instance :
+    (∃ o out, build (fun _ => true) 100 true false (.filter pE0 bLtS) {} {} = .ok o ∧
+      sel (F := Int) d1 {} o.q (.node 1) = .ok out ∧ ∀ x, x ∈ refs out ↔ x ∈ [Ref.node 7, .node 12]) ∧
+    (∃ o out, build (fun _ => true) 100 true false (.filter pE0 bGtS) {} {} = .ok o ∧
+      sel (F := Int) d1 {} o.q (.node 1) = .ok out ∧ ∀ x, x ∈ refs out ↔ x ∈ [Ref.node 7, .node 12]) := by
+  constructor
+  · obtain ⟨o, hb⟩ : ∃ o, build (fun _ => true) 100 true false (.filter pE0 bLtS) {} {} = .ok o :=
+      exists_ok (by decide +kernel)
+    obtain ⟨out, ns, g, h1, h2, h3⟩ := Theorems.C02.C02_main_full (F := Int) wf_d1 {} rfl hashInj_d1
+      (fun _ => true) 100 _ (.filter _ _ pE0_frag bLtS_frag) {} o hb (.node 1) (by decide)
+    have e : Spec.eval (F := Int) d1 (.filter pE0 bLtS) ⟨.node 1, 1, 1⟩ =
+        .ok (.val (.nodes [.node 7, .node 12]) (some [[.node 7, .node 12]])) := by decide +kernel
+    rw [e] at h2; cases h2
+    exact ⟨o, out, hb, h1, h3⟩
+  · obtain ⟨o, hb⟩ : ∃ o, build (fun _ => true) 100 true false (.filter pE0 bGtS) {} {} = .ok o :=
+      exists_ok (by decide +kernel)
+    obtain ⟨out, ns, g, h1, h2, h3⟩ := Theorems.C02.C02_main_full (F := Int) wf_d1 {} rfl hashInj_d1
+      (fun _ => true) 100 _ (.filter _ _ pE0_frag bGtS_frag) {} o hb (.node 1) (by decide)
+    have e : Spec.eval (F := Int) d1 (.filter pE0 bGtS) ⟨.node 1, 1, 1⟩ =
+        .ok (.val (.nodes [.node 7, .node 12]) (some [[.node 7, .node 12]])) := by decide +kernel
+    rw [e] at h2; cases h2
+    exact ⟨o, out, hb, h1, h3⟩
+
 /-! ## `Frag` (the first fragment): `/r/*[text() = 't' or @y]`, `b = not(@y)` -/
 
 def pB : Ast := .filter pA0 bA2
